@@ -512,7 +512,14 @@ impl Serialize for Extensions {
             ExtensionsVariantV1::Causal(extensions) => {
                 seq.serialize_element(&extensions.log_id)?;
                 seq.serialize_element(&extensions.timestamp)?;
-                seq.serialize_element(&extensions.previous)?;
+
+                // The iteration order of a `HashSet` is arbitrary and differs between instances
+                // holding the same elements. Serialise the hashes in sorted order, so that equal
+                // extensions always encode to the same bytes (and with that yield the same
+                // operation id and signature validity).
+                let mut previous: Vec<&Hash> = extensions.previous.iter().collect();
+                previous.sort();
+                seq.serialize_element(&previous)?;
             }
         }
 
